@@ -17,7 +17,7 @@ RULE = ("G-agree generator (gens_total.agree_ops): every input through the compl
         "exponent characters / decimal points / prefix and suffix letters, special strings and their prefixes (NaN, inf, infinity, "
         "-inf, +NaN, nan1, infinit, ...) also in radix >= 16 formats where their letters are digits, custom EXP / DP bytes; "
         "integers: +a, +, -, a, 12a, 1_, ... per integer format (radices, required sign, separators / prefix / suffix / digits "
-        "not required where the catalogue has them), boundary values. Checked: (R1) complete = ok v <=> partial = ok (v, length); "
+        "not required: fmtcat_total.py), boundary values. Checked: (R1) complete = ok v <=> partial = ok (v, length); "
         "(R2) partial = ok (v, n), n > 0 => complete on the first n bytes = ok v (second-stage run). "
         "non-trivial = a byte was consumed (ok, or an error index > 0); distinct = distinct op lines")
 
